@@ -69,6 +69,9 @@ type scenario struct {
 	listenErr string
 	// finding probe only: the raw upgrade client is used although use_h2c is on
 	rawOverH2c bool
+	// a reload: this server is started on the SAME address as the first member of its group while that one
+	// is draining; it may bind (the first listener is closed) or fail with address in use - both are fine
+	reload bool
 	// ServiceConfig timeouts handed to the runner (0 = unset)
 	idle, read, write, readHeader time.Duration
 }
@@ -606,7 +609,11 @@ func runGroupOnce(g *group, members []*scenario, expiry time.Duration) ([]*resul
 	}
 	insts := make([]*inst, len(members))
 	for i, s := range members {
-		insts[i] = newInst(s, run, expiry<<(2*rank[i]))
+		same := 0
+		if s.reload && i > 0 {
+			same = insts[0].port
+		}
+		insts[i] = newInst(s, run, expiry<<(2*rank[i]), same)
 	}
 	cleanupAll := func() {
 		for _, in := range insts {
@@ -662,7 +669,7 @@ type inst struct {
 
 type ctxKey struct{}
 
-func newInst(s *scenario, run runFunc, expiry time.Duration) *inst {
+func newInst(s *scenario, run runFunc, expiry time.Duration, samePort int) *inst {
 	w := &world{scheme: schemeOf(s), ctxAware: s.ctxAware, token: fmt.Sprintf("%d-%d", os.Getpid(), tokenCounter.Add(1)), specs: map[int]*reqSpec{}, clients: map[string]string{}}
 	for id, size := range s.sizes {
 		sp := &reqSpec{mid: s.mid[id], id: id, size: size, split: s.split[id], gate: make(chan struct{}), entered: make(chan struct{}), finished: make(chan struct{})}
@@ -683,8 +690,13 @@ func newInst(s *scenario, run runFunc, expiry time.Duration) *inst {
 		fmt.Fprintln(os.Stderr, "C19: cannot bind:", err)
 		os.Exit(3)
 	}
+	if samePort > 0 {
+		hl.Close()
+	}
 	in := &inst{s: s, w: w, run: run, port: hl.Addr().(*net.TCPAddr).Port, returned: make(chan struct{}), nextPoll: 100, fins: map[int]chan struct{}{}, slow: map[int]net.Conn{}}
-	if !s.portHeld {
+	if samePort > 0 {
+		in.port = samePort
+	} else if !s.portHeld {
 		hl.Close()
 	} else {
 		in.hl = hl
@@ -726,7 +738,7 @@ func (in *inst) addrInUse() bool {
 	select {
 	case <-in.returned:
 		// only this server's own address counts: somebody took the port between our close and its listen
-		return !in.s.portHeld && strings.Contains(in.errText, "address already in use") && strings.Contains(in.errText, in.addr)
+		return !in.s.portHeld && !in.s.reload && strings.Contains(in.errText, "address already in use") && strings.Contains(in.errText, in.addr)
 	default:
 		return false
 	}
@@ -788,6 +800,9 @@ func (in *inst) do(st step) bool {
 				case <-in.returned:
 					stop = true
 				default:
+				}
+				if stop && s.reload {
+					break // the address was still busy: the reloaded instance returned its listen error
 				}
 				if stop || time.Now().After(deadline) {
 					w.note("server never listened")
